@@ -598,6 +598,12 @@ func (s *Module) AddMPTNodes(nodes [][]byte) error {
 		if typ := n.Node.Type(); typ == mpt.HashT || typ == mpt.EmptyT {
 			return fmt.Errorf("unexpected MPT node type %d", typ)
 		}
+		// The hash of a node is the hash of its canonical form, where children are
+		// referenced by hashes. A node that carries its children inline has the same
+		// hash, but its children would never be requested, stored or counted.
+		if !bytes.HasPrefix(nBytes, n.Node.Bytes()) {
+			return errors.New("non-canonical encoding of MPT node")
+		}
 		err := s.restoreNode(n.Node)
 		if err != nil {
 			return err
